@@ -57,7 +57,15 @@ def _tables():
     sp = importlib.util.spec_from_file_location("sitegen_dispatch", os.path.join(vlib.VERIF, "tools", "sitegen", "dispatch.py"))
     m = importlib.util.module_from_spec(sp)
     sp.loader.exec_module(m)
-    return m, m.tables(vlib.REPO)
+    try:
+        return m, m.tables(vlib.REPO), None
+    except Exception as ex:  # noqa: BLE001
+        # the extraction fails closed on a tree whose dispatch code no longer has the recognised shape (that is
+        # already a broken site obligation); the campaign then searches a failing input with the REFERENCE tables
+        # committed in coq/Gen (the Coq judge is built from the committed Gen/S_dispatch.v in that case, too)
+        import ast
+        ref = os.path.join(vlib.COQ_SRC, "Gen", "S_dispatch_tables.txt")
+        return m, ast.literal_eval(open(ref).read()), f"{type(ex).__name__}: {ex}"
 
 
 # =================================================================== worker side
@@ -280,16 +288,33 @@ def impl_agree(case):
 
 
 def impl_sweep(case):
-    """case: (public numpy name, operand descriptor, nargs) -> {'kind', 'canon'}"""
-    name, od, nargs = case
+    """case: (public (dotted) numpy name, [operand descriptors], compare with NumPy on the dense operands?)
+    -> {'kind', 'canon', 'np_ok'}"""
+    name, ads, want_ref = case
     st = _setup()
     np = st["np"]
     f = np
     for part in name.split("."):
         f = getattr(f, part)
-    args = [_mk(od) for _ in range(nargs)]
-    kind, can, dens = _run(lambda: f(*args))
-    return {"kind": "densified" if dens else kind, "canon": can[:300]}
+    args = [_mk(a) for a in ads]
+    box = {}
+
+    def thunk():
+        box["r"] = f(*args)
+        return box["r"]
+    kind, can, dens = _run(thunk)
+    good = True
+    if want_ref and "r" in box and kind in ("sparse", "ndarray", "scalar"):
+        try:
+            import contextlib
+            import io
+            with np.errstate(all="ignore"), contextlib.redirect_stdout(io.StringIO()):
+                want = np.asarray(f(*[_dense(_mk(a)) for a in ads]))
+            got = np.asarray(_dense(box["r"]))
+            good = bool(got.shape == want.shape and np.array_equal(got, want, equal_nan=True))
+        except Exception:  # noqa: BLE001  (NumPy itself rejects the dense call: any normal return is wrong)
+            good = False
+    return {"kind": "densified" if dens else kind, "canon": can[:300], "np_ok": good}
 
 
 def _dense(a):
@@ -855,39 +880,78 @@ def _operator_spec():
             "and": "bitwise_and", "xor": "bitwise_xor", "or": "bitwise_or"}
 
 
+SUBNS_SAMPLED = ("fft.", "ma.", "char.")
+
+
+def _subns_args(rng, fmt):
+    """operands on which the sub-namespace function and the top-level function of the same name DIFFER"""
+    ca = fmt[1]
+    if ca is not None and (max(ca) >= 2 or len(ca) >= 2):
+        ca = None          # GCXS cannot compress all axes of a 2-d array (same rule as _sp)
+    neg = ("sp", fmt[0], ca, [[-4.0, 0.0, 9.0], [0.0, -1.0, 0.0]], 0, "float64")
+    x23, y23 = _sp(rng, fmt, (2, 3), 0, "float64"), _sp(rng, fmt, (2, 3), 0, "float64")
+    return {
+        "linalg.diagonal": [[_sp(rng, fmt, (2, 2, 3), 0, "float64")], [_sp(rng, fmt, (3, 3, 2), 0, "float64")]],
+        "linalg.outer": [[x23, y23]],                                   # NumPy demands 1-d operands
+        "linalg.matmul": [[x23, _sp(rng, fmt, (3, 2), 0, "float64")]],
+        "linalg.vecdot": [[x23, y23]],
+        "linalg.matrix_transpose": [[x23]],
+        "linalg.trace": [[_sp(rng, fmt, (3, 3), 0, "float64")]],
+        "linalg.cross": [[x23, y23]],
+        "linalg.norm": [[_sp(rng, fmt, (3, 3), 0, "float64")]],
+        "linalg.cholesky": [[_sp(rng, fmt, (3, 3), 0, "float64")]],
+        "emath.sqrt": [[neg]], "emath.log": [[neg]], "emath.power": [[neg, ("py", 0.5)]],
+        "fft.fft": [[_sp(rng, fmt, (4,), 0, "float64")]],
+    }
+
+
 def _sweep_cases(T, rng, tier):
-    """part 4: every public NumPy function/ufunc on 1..3 sparse arguments"""
+    """part 4: every public NumPy function/ufunc (sub-namespaces linalg, fft, emath, ma, char included) on 1..3 sparse
+    arguments; for the sub-namespace functions that have a same-named top-level function additionally the operands
+    on which the two differ, compared with NumPy on the dense operands"""
     nptab = T["numpy"]
     nsnames = {n for n, e in T["namespace"]}
     wcases, wmeta = [], []
     names = [n for n, k in nptab if k[0] in ("function", "ufunc", "nodispatch")]
     kind_of = dict(nptab)
-    if tier == "quick":
-        names = [n for n in names if "." not in n or n.startswith("linalg.")]
+    fmts = _formats(tier) if tier != "quick" else [("coo", None), ("gcxs", (1,)), ("dok", None)]
     for n in names:
-        for fmt in (_formats(tier) if tier != "quick" else [("coo", None), ("gcxs", (1,)), ("dok", None)]):
+        k = kind_of[n]
+        sampled_out = tier == "quick" and n.startswith(SUBNS_SAMPLED) and rng.random() >= 0.25
+        for fmt in fmts:
+            reach = k[0] == "ufunc" or (k[0] == "function" and (k[1] in nsnames or k[1] in T["attrs"][CLS_OF[fmt[0]]]))
+            if sampled_out and not (k[0] == "function" and k[1] in nsnames):
+                continue
             od = _sp(rng, fmt, (3, 3), 0, "float64")
             for nargs in (1, 2, 3):
                 if tier == "quick" and fmt[0] != "coo":
                     # quick tier: the other formats get one argument, and only the names that can reach
                     # format-specific code (namespace / type attribute) plus a seeded 15% sample of the rest
-                    k = kind_of[n]
-                    reach = k[0] == "ufunc" or (k[0] == "function" and (k[1] in nsnames or k[1] in T["attrs"][CLS_OF[fmt[0]]]))
                     if nargs > 1 or not (reach or rng.random() < 0.15):
                         continue
-                if kind_of[n][0] == "ufunc" and nargs > kind_of[n][3]:
+                if k[0] == "ufunc" and nargs > k[3]:
                     continue          # further positionals of a ufunc are `out` arguments
-                wcases.append((n, od, nargs))
+                wcases.append((n, [od] * nargs, False))
                 wmeta.append((CLS_OF[fmt[0]], n, nargs, fmt))
+    for fmt in fmts:
+        for n, arglists in _subns_args(rng, fmt).items():
+            if n not in kind_of:
+                continue
+            for ads in arglists:
+                wcases.append((n, ads, True))
+                wmeta.append((CLS_OF[fmt[0]], n, len(ads), fmt))
     return wcases, wmeta
 
 
 def campaign(build, tier, seed, report, budget=1):
     rng = random.Random(seed)
-    sg, T = _tables()
+    sg, T, table_err = _tables()
     viol = []
     cov = report["coverage"]
     tags = {}
+    if table_err:
+        report["notes"].append("dispatch tables could not be extracted from this tree (" + table_err[:200] +
+                               "); the campaign ran with the committed reference tables")
     notes = report["notes"]
     wrappers = {e[1]["name"]: e[1] for _n, e in T["namespace"] if e[0] == "wrapper"}
     nptab = T["numpy"]
@@ -999,17 +1063,25 @@ def campaign(build, tier, seed, report, budget=1):
         kind = r.get("kind") or ("hang" if r.get("hang") else "otherexc")
         r["kind"] = kind
         kinds_hist[kind] = kinds_hist.get(kind, 0) + 1
-        wlits.append(vpair(q(cls), q(n), vbool(nargs == 1), vZ(K.get(kind, 19))))
+        wlits.append(vpair(q(cls), q(n), vbool(nargs == 1), vZ(K.get(kind, 19)), vbool(r.get("np_ok", True))))
     wbad = build.judge("c17_sweep", IMPORTS, "sweep_case", "judge_sweep", wlits)
-    SW = {1: (None, "representation"), 2: ("numpy_function_silently_densifies", "value"), 3: (None, "representation")}
+    SW = {1: (None, "value"), 2: ("numpy_function_silently_densifies", "value"), 3: (None, "representation"),
+          4: (None, "value")}
+    SWW = {1: "the dispatch rule says this NumPy function is NOT implemented (absent from the sparse namespace under the "
+              "same sub-module path and from the type) but the call did not raise TypeError: another function answered",
+           2: "silently densified", 3: "NumPy found no implementation although the model resolves the name",
+           4: "the result differs from NumPy's on the densified operands"}
     for i, code in wbad:
         cls, n, nargs, fmt = wmeta[i]
         clause, kind = SW[code]
-        ctor = _show_call(("attr", "shape"), [wcases[i][1]], {})[:-6]
+        call = _show_call(("numpy_function", n), wcases[i][1], {})
+        dcall = call.replace("sparse.COO.from_numpy(", "(").replace("sparse.GCXS.from_numpy(", "(")
         viol.append({"property": "C17", "op": "np." + n, "kind": kind, "clause": clause, "format": cls, "judge_code": code,
-                     "variant": f"sweep_{nargs}_args", "case": {"name": n, "nargs": nargs, "format": fmt},
+                     "variant": f"sweep_{nargs}_args", "what": SWW.get(code, ""),
+                     "case": {"name": n, "nargs": nargs, "format": fmt, "call": call},
                      "impl": wres[i],
-                     "replay_py": "import numpy as np, sparse; x=%s; print(type(np.%s(%s)))" % (ctor, n, ", ".join(["x"] * nargs))})
+                     "replay_py": "import numpy as np, sparse\ntry:\n    r = %s; print(type(r).__name__, r.todense() if hasattr(r, 'todense') else r)"
+                                  "\nexcept Exception as e: print('raises', type(e).__name__)" % call})
     for kk, vv in sorted(kinds_hist.items()):
         tags["sweep/" + kk] = vv
     # python results of the sweep that are plain ndarrays without densification (index/value arrays by design)
